@@ -17,6 +17,12 @@ def split_lines(data):
     return res
 
 
+def _range(start, count, salt):
+    if count == 1 and (start + salt) % 2 == 0:
+        return b"%d" % start
+    return b"%d,%d" % (start, count)
+
+
 class Hunk:
     __slots__ = ("old_start", "new_start", "lines")
 
@@ -33,7 +39,9 @@ class Hunk:
 
     def render(self):
         o, n = self.old(), self.new()
-        out = [b"@@ -%d,%d +%d,%d @@\n" % (self.old_start, len(o), self.new_start, len(n))]
+        # GNU diff prints a count of 1 as nothing ("@@ -3 +3,2 @@"); which sides get the short form is derived from
+        # the hunk itself, so no random draw is consumed and the same hunk always renders the same way
+        out = [b"@@ -%s +%s @@\n" % (_range(self.old_start, len(o), len(self.lines)), _range(self.new_start, len(n), len(self.lines) + 1))]
         for t, l in self.lines:
             out.append(t + l)
             if not l.endswith(b"\n"):
